@@ -211,6 +211,11 @@ func errorPropagation(c *Ctx, p *packages.Package, rule string) {
 					c.ok(rule, key, pos, "named result at the end of the function")
 					return
 				}
+				// other arrangements (assigned inside a branch and returned after it, …): decided over the paths of the body
+				if okPaths, n := errReachesReturnOnPaths(info, p.Types, b.body, s, v, namedErr); okPaths && n > 0 {
+					c.ok(rule, key, pos, fmt.Sprintf("returned on each of the %d path(s) that run this call (no overwrite in between)", n))
+					return
+				}
 				c.viol(rule, key, pos, fmt.Sprintf("%s: the error of %s is neither checked nor returned on this path", b.key, what))
 			default:
 				c.undec(rule, key, pos, fmt.Sprintf("call to %s in an unrecognised statement form %T", what, st))
@@ -788,4 +793,65 @@ func errorLineFromUserExpression(c *Ctx, rule string) {
 	}
 	c.check(reads, rule, pkgGenerator+"|error-handler-reads-expression-range", "", "the emitted error handler takes its line from the Range of the expression it is given",
 		"no error-handler emitter reads the Range of a parser.Expression: the source line in templ.Error no longer comes from the failing expression")
+}
+
+// errReachesReturnOnPaths: on every path of body that executes the assignment st (which sets the error variable v),
+// the path either tests v and — when it found it non-nil — returns it, or ends in a return of v (a bare return when v is
+// the named result), and v is not assigned again between st and that return.
+func errReachesReturnOnPaths(info *types.Info, pkg *types.Package, body *ast.BlockStmt, st ast.Stmt, v, namedErr types.Object) (bool, int) {
+	den := &denum{info: info, pkg: pkg, inits: map[types.Object]ast.Expr{}, limit: 5000, opaqueLoops: true}
+	den.finish(den.run(body.List, []dstate{{env: map[types.Object]ast.Expr{}}}))
+	if den.undecided != "" {
+		return false, 0
+	}
+	returnsV := func(r *ast.ReturnStmt) bool {
+		if r == nil {
+			return v == namedErr // falls off the end of a function with named results: impossible in Go unless no results; be strict
+		}
+		if len(r.Results) == 0 {
+			return v == namedErr
+		}
+		for _, e := range r.Results {
+			if id, ok := ast.Unparen(e).(*ast.Ident); ok && info.ObjectOf(id) == v {
+				return true
+			}
+		}
+		return false
+	}
+	n := 0
+	for _, pth := range den.paths {
+		at := -1
+		for i, t := range pth.Trace {
+			if t == st {
+				at = i
+			}
+		}
+		if at < 0 {
+			continue
+		}
+		n++
+		for _, t := range pth.Trace[at+1:] {
+			if assignsTo(info, t, v) {
+				return false, n
+			}
+		}
+		tested, nonNil := false, false
+		for _, pc := range pth.Conds {
+			be, ok := ast.Unparen(pc.Expr).(*ast.BinaryExpr)
+			if !ok || (be.Op != token.NEQ && be.Op != token.EQL) || types.ExprString(be.Y) != "nil" {
+				continue
+			}
+			if id, ok := ast.Unparen(be.X).(*ast.Ident); ok && info.ObjectOf(id) == v {
+				tested = true
+				nonNil = pc.Val == (be.Op == token.NEQ)
+			}
+		}
+		if tested && !nonNil {
+			continue
+		}
+		if !returnsV(pth.Ret) {
+			return false, n
+		}
+	}
+	return true, n
 }
